@@ -5,8 +5,54 @@ From PL Require Import Core.Broadcast Core.BroadcastThm.
 Import ListNotations.
 Open Scope Z_scope.
 
+(* ------------------------------------------------------------------ the positional re-coding *)
+
+Lemma uniq_In x l : In x (uniq l) <-> In x l.
+Proof.
+  induction l as [|y l IH]; cbn; [tauto|]. rewrite filter_In, IH, negb_true_iff, Z.eqb_neq.
+  destruct (Z.eq_dec x y); [subst; tauto|]. split; [tauto|]. intros [H|H]; [congruence|tauto].
+Qed.
+
+Lemma uniq_NoDup l : NoDup (uniq l).
+Proof.
+  induction l as [|y l IH]; cbn; [constructor|]. constructor.
+  - rewrite filter_In, Z.eqb_refl. cbn. intros [_ H]. discriminate.
+  - apply NoDup_filter. exact IH.
+Qed.
+
+Lemma nth_index_of x l : In x l -> nth (index_of x l) l 0 = x.
+Proof.
+  induction l as [|y l IH]; cbn; [tauto|]. destruct (x =? y) eqn:E.
+  - apply Z.eqb_eq in E. now subst.
+  - apply Z.eqb_neq in E. intros [H|H]; [congruence|]. apply IH. exact H.
+Qed.
+
+(* restore_real_index undoes _make_new_index on every value of the level table ... *)
+Theorem decode_encode tbl n x : In x (tbl n) -> decode tbl n (encode tbl n x) = x.
+Proof. intros H. unfold decode, encode. rewrite Nat2Z.id. apply nth_index_of. exact H. Qed.
+
+(* ... hence distinct values of a level get distinct codes *)
+Theorem encode_inj tbl n x y : In x (tbl n) -> In y (tbl n) -> encode tbl n x = encode tbl n y -> x = y.
+Proof. intros Hx Hy E. rewrite <- (decode_encode tbl n x Hx), <- (decode_encode tbl n y Hy), E. reflexivity. Qed.
+
 Section Impl.
 Variable V : Type.
+
+(* the table of a level holds every value of that level in EITHER operand (one table for both: keys of the two
+   operands that are equal get equal codes, keys that differ get different codes), without duplicates *)
+Theorem table_complete lo lp (ro rp : list (key * V)) n :
+  (forall a, In a ro -> In n lo -> In (get n lo (fst a)) (table lo lp ro rp n)) /\
+  (forall b, In b rp -> In n lp -> In (get n lp (fst b)) (table lo lp ro rp n)) /\
+  NoDup (table lo lp ro rp n).
+Proof.
+  unfold table. repeat split; try apply uniq_NoDup.
+  - intros a Ha Hn. apply uniq_In, in_or_app. left. unfold col.
+    replace (mem n lo) with true by (symmetry; apply mem_In; exact Hn).
+    apply (in_map (fun a => get n lo (fst a))). exact Ha.
+  - intros b Hb Hn. apply uniq_In, in_or_app. right. unfold col.
+    replace (mem n lp) with true by (symmetry; apply mem_In; exact Hn).
+    apply (in_map (fun a => get n lp (fst a))). exact Hb.
+Qed.
 
 Lemma name_levels_unname l : forall s, map unname (fst (name_levels s l)) = l.
 Proof.
